@@ -35,6 +35,7 @@ func rulesC18(c *Ctx) {
 	ruleC18ReadPath(c)
 	ruleC18View(c)
 	ruleC18ClosureState(c)
+	ruleFreshDefaultContext(c, "C18.FRESHCTX")
 	ruleNoUnsafe(c, "C18.NOUNSAFE")
 }
 
